@@ -51,6 +51,8 @@ def call(a, b, dim, p, how, brute):
     try:
         with core.quiet():
             t1, t2 = mk(a, dim), mk(b, dim)
+            if a == b and (len(a) + dim) % 2 == 0:
+                t2 = t1                                   # aliasing: the same Track object on both sides
             # history (every third call): track1 is itself the result of an earlier matching (with a reversed copy of
             # track2): it already carries the 'pair', 'diff' ... features the new matching has to overwrite
             if (len(a) + 2 * len(b) + dim + (0 if p == PINF else p)) % 3 == 0 and how != "compare":
